@@ -19,13 +19,19 @@ def _on_alarm(signum, frame):
 
 @contextmanager
 def watchdog(seconds):
-    old = signal.signal(signal.SIGALRM, _on_alarm)
-    signal.setitimer(signal.ITIMER_REAL, seconds)
+    """Budget in *CPU seconds of this process* (ITIMER_VIRTUAL), so that a loaded machine cannot turn a slow
+    evaluation into a 'hang'; a wall-clock backstop (30x) catches waits that burn no CPU."""
+    old_v = signal.signal(signal.SIGVTALRM, _on_alarm)
+    old_r = signal.signal(signal.SIGALRM, _on_alarm)
+    signal.setitimer(signal.ITIMER_VIRTUAL, seconds)
+    signal.setitimer(signal.ITIMER_REAL, seconds * 30)
     try:
         yield
     finally:
+        signal.setitimer(signal.ITIMER_VIRTUAL, 0)
         signal.setitimer(signal.ITIMER_REAL, 0)
-        signal.signal(signal.SIGALRM, old)
+        signal.signal(signal.SIGVTALRM, old_v)
+        signal.signal(signal.SIGALRM, old_r)
 
 
 def timed(fn, seconds=10.0):
